@@ -10,6 +10,7 @@ from __future__ import annotations
 import math
 import os
 import random
+import weakref
 
 import numpy as np
 import onnx
@@ -280,6 +281,13 @@ _NP_FOR = {
 }  # fmt: skip
 
 
+class _LazyToken:
+    """Stands for the bytes a lazy tensor's loader has produced (accounting key)."""
+
+    def __init__(self, sim_index: int) -> None:
+        self.sim_index = sim_index
+
+
 def _np_tensor(payload: bytes, dtype: str, shape, name: str):
     d = dt(dtype)
     if dtype in _NP_FOR:
@@ -328,18 +336,30 @@ def build_tensor(spec: dict, idx: int, run_seed: int, acct: Accounting, ext_file
         state = {"calls": 0}
         fail = spec.get("fail")
 
+        keep_alive = bool(spec.get("cache", False))
+
         def thunk(_k=inner_kind):
             state["calls"] += 1
             if _k == "sim":
                 return SimTensor(acct, payload, dtype, shape, name, sim_index=idx, pieces=spec.get("pieces", 1), fail=fail)
-            acct.yield_("lazy.thunk")
-            if fail is not None and not fail.get("spent"):
-                if fail.get("once"):
-                    fail["spent"] = True
-                raise EXC_TYPES[fail.get("exc", "RuntimeError")](f"injected failure in lazy tensor #{idx}")
-            if _k == "proto":
-                return _proto_tensor(payload, dtype, shape, name)
-            return _np_tensor(payload, dtype, shape, name)
+            # the bytes are materialised from the moment the loader runs until the produced tensor is dropped again
+            # (for a caching lazy tensor the caller keeps them for good - by its own choice - so only the load is counted)
+            token = _LazyToken(idx)
+            acct.enter(token, len(payload), "lazy.thunk")
+            try:
+                if fail is not None and not fail.get("spent"):
+                    if fail.get("once"):
+                        fail["spent"] = True
+                    raise EXC_TYPES[fail.get("exc", "RuntimeError")](f"injected failure in lazy tensor #{idx}")
+                result = _proto_tensor(payload, dtype, shape, name) if _k == "proto" else _np_tensor(payload, dtype, shape, name)
+            except BaseException:
+                acct.exit(token, len(payload))
+                raise
+            if keep_alive:
+                acct.exit(token, len(payload))
+            else:
+                weakref.finalize(result, acct.exit, token, len(payload))
+            return result
 
         t = ir.LazyTensor(thunk, dtype=dt(dtype), shape=ir.Shape(shape), cache=spec.get("cache", False), name=name)
     elif kind == "ext" and spec.get("broken"):
